@@ -32,7 +32,7 @@ Definition dispatch (f : Z) (x : sx) : sx :=
   | 804 => x_detection_type x | 805 => x_check_heralds x | 806 => x_simulate x | 807 => x_closed x
   | 1500 => x_sf x | 1501 => x_codec x | 1502 => x_codec_old x
   | 1600 => x_scenario x | 1601 => PayloadX.x_handle_params x
-  | 1900 => x_jobgroup_run x | 1901 => x_jobgroup_run_old x
+  | 1900 => x_jobgroup_run x | 1901 => x_jobgroup_run_old x | 1902 => x_jobgroup_world x
   | 1100 => x_tmat x | 1101 => x_inverse x | 1102 => x_decompose x | 1103 => x_flatten x | 1104 => x_regroup x
   | 1105 => x_perm_util x | 1106 => x_update_adjacent x | 1107 => x_close x | 1108 => x_seq x
   | 1200 => x_close_to x | 1201 => x_diag_equiv x | 1202 => x_decomp x
